@@ -19,6 +19,15 @@ for pid in sys.argv[2:]:
                  "THIS property breaks while the change looks unrelated to it; and at least one must only manifest after a "
                  "LONG or UNUSUAL history (many operations, wrap-arounds, reuse after completion, objects reused across "
                  "calls, a second instance in the same process).\n\n")
+    if wave.isdigit() and int(wave) >= 5:
+        extra += ("Additionally for this round: at least ONE of your three changes must only affect a NON-DEFAULT BUT "
+                  "SUPPORTED way of using the library that is still within the property's scope — a different public entry "
+                  "point or constructor form reaching the same mechanism, a subclass or mix-in of the classes involved, a "
+                  "different but legal configuration value, calls made from inside callbacks, the py34 code path reached "
+                  "through another module of the stack (e.g. the same codec used by a service layer, a router, a BBMD, "
+                  "an application service) — while the most obvious direct use keeps working. Avoid the mechanisms in the "
+                  "already-tried list below (shared empty buffers, memoised hashes, heap sift variants, counter wraps at "
+                  "2^8/2^16 have been done); look for NEW mechanisms.\n\n")
     tried = []
     for m in sorted(glob.glob("/verif/seeded/%s-*/meta.json" % pid)):
         tried.append("- " + str(json.load(open(m)).get("summary", "")).replace("\n", " ")[:300])
